@@ -435,7 +435,7 @@ type genDoc struct {
 	mutation bool
 }
 
-func genDocument(r *rng.R, s *schemaDef) genDoc {
+func genDocument(r *rng.R, s *schemaDef, hostile bool) genDoc {
 	g := &docGen{s: s, r: r, budget: r.Range(2, 25), usedVars: map[string]bool{}, root: true}
 	for i, n := 0, r.Intn(3); i < n; i++ {
 		g.vars = append(g.vars, fmt.Sprintf("v%d", i))
@@ -460,6 +460,30 @@ func genDocument(r *rng.R, s *schemaDef) genDoc {
 		g.root = false
 	}
 	body := g.selSet(rootT, r.Range(1, 4), 3)
+	if hostile {
+		// selections validation would refuse: the executor is handed the parsed document directly
+		rt := s.byName[rootT]
+		extras := []string{"... on Int {__typename}", "... on Nope {__typename}", "...Missing", "zz9", "zz9 {__typename}",
+			"__typename @skip(if: $nope)", "__typename @include(if: $nope)", "...CY", "... on String {zz9}", "zq: __schema"}
+		for _, f := range rt.fields {
+			if s.byName[f.ty.base()].composite() {
+				extras = append(extras, f.name, f.name+" {zz9}", f.name+" {... on Boolean {__typename}}", f.name+" {zz9 {zz8} __typename}")
+			} else {
+				extras = append(extras, f.name+" {__typename}", f.name+" {zz9}")
+			}
+		}
+		for i, n := 0, r.Range(1, 2); i < n; i++ {
+			x := rng.Pick(r, extras)
+			if x == "...CY" && !strings.Contains(body, "...CY") {
+				g.frags = append(g.frags, fragment{"CY", rootT, "__typename ...CY ...F1"})
+			}
+			if r.Bool() {
+				body = x + " " + body
+			} else {
+				body = body + " " + x
+			}
+		}
+	}
 	var decls []string
 	for _, v := range g.vars {
 		if !g.usedVars[v] {
